@@ -105,6 +105,9 @@ func envOf(id int) map[string]any {
 		{2, 11, 0, -1, 0, 16, 1, 0, 18, 0.75, 4, 0, -1.5, 0, "zed", "abc", "", "7", "Al", "mid", "x", false, true, false, false, true, []int{0, 5, 1}, []float64{0, 3}, []string{"kk", ""}},
 		{12, 12, 0, -9, 33, 1, 64, 12, 0, 10.5, 10.5, 0, 0.5, 2.75, "Mixed", "mixed", "", "100", "carol", "", "bo", true, true, false, true, true, []int{3, 3, 4}, []float64{2, 2}, []string{"a1", "a1"}},
 	}
+	if id == structEnv {
+		return structModel()
+	}
 	if id == fnEnv {
 		m := envOf(0)
 		for k, v := range fnVars {
